@@ -163,7 +163,7 @@ void HttpServer::serveFile(HttpRequest& request, HttpResponse& response)
 			if (request.hasHeader("If-Modified-Since"))
 			{
 				Date ifdate = request.header("If-Modified-Since");
-				if (file.lastModified() <= ifdate + 1.0) {
+				if (file.lastModified() < ifdate + 1.0) { // not modified after that second
 					response.setCode(304);
 					return;
 				}
